@@ -308,8 +308,14 @@ def hid(h):
 def tokens_of(h, v):
     """Tok(h, v) of ControlRefresh.tla as byte-ordered token strings (the numbers are part of the data model the
     harness shares with the spec, like addresses)."""
-    nums = {1: [16 * h], 2: [16 * h, 16 * h + 8], 3: [16 * h + 8]}.get(v, [])
-    return ["%02x" % n for n in nums]
+    return ["%02x" % n for n in token_numbers(h, v)]
+
+
+def token_numbers(h, v):
+    nums = {1: [16 * h], 2: [16 * h, 16 * h + 8], 3: [16 * h + 8]}
+    if h >= 1:
+        nums.update({4: [16 * (h - 1)], 5: [16 * (h - 1), 16 * h]})     # the predecessor's primary token is h's now
+    return nums.get(v, [])
 
 
 class RecListener(HostStateListener):
@@ -740,8 +746,16 @@ class AgreeHarness:
                 self.aborted_at = now
                 conn.server_closed()
                 return True
+            self._close_lost(now)
+            if s is None:
+                # scripted fault: the node does not answer the schema-version queries now; the driver's request times out
+                if self.aborted_at is None:
+                    self.polls.append({"at": now, "snap": None, "end": None})
+                self._cur = "lost"
+                self.world.clock.advance(ROUND_TRIP)     # sending takes time even when nobody answers (no Zeno loop)
+                return True
             if self.aborted_at is None:               # later polls belong to the background refresh, not to this wait
-                self.polls.append((now, s))
+                self.polls.append({"at": now, "snap": s, "end": now})
             self._cur = s
             for n, p in enumerate(self.kpeers):
                 self.hosts[p].is_up = _IS_UP[s["st"][n]]
@@ -766,12 +780,24 @@ class AgreeHarness:
             return True
         if q.startswith("SELECT schema_version FROM system.local"):
             s = getattr(self, "_cur", None) or self._current(self.world.clock.now - self.t0)
+            if s == "lost" or s is None:
+                return True                           # unanswered, like the peers query of the same poll
             node.send(conn, f.version, f.stream, wire.RESULT, wire.body_rows(
                 [("schema_version", wire.T_UUID)], [[wire.c_uuid(SCHEMA_VERSIONS[s["local"]])]], ks="system", table="local"))
             return True
         return False
 
-    def _begin(self, wait_ticks, timeline, fault_at_poll=None):
+    def _close_lost(self, now):
+        if self.polls and self.polls[-1]["end"] is None:
+            self.polls[-1]["end"] = now              # the unanswered poll's request timed out (no pause follows)
+
+    def _begin(self, wait_ticks, timeline, fault_at_poll=None, query_timeout_ticks=None):
+        # several harnesses (worlds) coexist: make this one's virtual clock the one blocked waits advance
+        from harness.sim import simconn
+        simconn.SimWorld.current = self.world
+        simconn.SimEvent.world = self.world
+        self.world.install()
+        self.cc._timeout = 2.0 if query_timeout_ticks is None else query_timeout_ticks * TICK    # control_connection_timeout
         self.fault_at_poll = fault_at_poll
         self.aborted_at = None
         self.cluster.max_schema_agreement_wait = wait_ticks * TICK
@@ -785,14 +811,15 @@ class AgreeHarness:
     def _end(self, out):
         for p in self.kpeers:
             self.hosts[p].is_up = True
+        self._close_lost(self.world.clock.now - self.t0)
         out["polls"] = list(self.polls)
         out["end"] = self.world.clock.now - self.t0
         out["aborted_at"] = self.aborted_at
         return out
 
-    def direct(self, wait_ticks, timeline, fault_at_poll=None):
+    def direct(self, wait_ticks, timeline, fault_at_poll=None, query_timeout_ticks=None):
         """cluster.control_connection.wait_for_schema_agreement() -> {"outcome", "polls", "end"}."""
-        self._begin(wait_ticks, timeline, fault_at_poll)
+        self._begin(wait_ticks, timeline, fault_at_poll, query_timeout_ticks)
         out = {"error": None}
         try:
             out["outcome"] = self.cc.wait_for_schema_agreement()
@@ -801,9 +828,9 @@ class AgreeHarness:
             out["error"] = "%s: %s" % (type(exc).__name__, str(exc)[:200])
         return self._end(out)
 
-    def ddl(self, wait_ticks, timeline, fault_at_poll=None):
+    def ddl(self, wait_ticks, timeline, fault_at_poll=None, query_timeout_ticks=None):
         """A CREATE TABLE request answered with a SCHEMA_CHANGE result -> {"outcome": is_schema_agreed, ...}."""
-        self._begin(wait_ticks, timeline, fault_at_poll)
+        self._begin(wait_ticks, timeline, fault_at_poll, query_timeout_ticks)
         out = {"error": None, "outcome": "unset"}
         try:
             fut = self.session.execute_async("CREATE TABLE ks.t (k int PRIMARY KEY)")
@@ -834,21 +861,30 @@ class AgreeHarness:
             pass
 
 
-def agree_trace(harnesses, mode, wait_ticks, timeline, fault_at_poll=None):
+def agree_trace(harnesses, mode, wait_ticks, timeline, fault_at_poll=None, query_timeout_ticks=None):
     """Run the real wait once on a scripted timeline; returns (trace for Trace_ControlAgree.tla, raw observation).
     With `fault_at_poll` = k the k-th poll (0-based) is answered by closing the connection the wait runs on: an
     exception escapes from the wait (event Abort); the harness used is replaced by a fresh one afterwards.
+    A timeline entry whose snapshot is None is a period in which the node does not answer the schema-version queries
+    (the driver's requests time out after min(query_timeout, remaining wait): PollLost events).
     The trace ends with a `Broken` event (which no specification action matches) when the call raised / never
     completed without a scripted fault."""
     key = "nometa" if mode in ("direct", "ddl_nometa") else "meta"
     h = harnesses[key]
     if mode == "direct":
-        got = h.direct(wait_ticks, timeline, fault_at_poll)
+        got = h.direct(wait_ticks, timeline, fault_at_poll, query_timeout_ticks)
     else:
-        got = h.ddl(wait_ticks, timeline, fault_at_poll)
+        got = h.ddl(wait_ticks, timeline, fault_at_poll, query_timeout_ticks)
     tr = [{"e": "Start", "wait": wait_ticks, "mode": mode}]
-    for now, s in got["polls"]:
-        tr.append({"e": "Poll", "at": tick_of(now), "snap": {"local": s["local"], "pv": list(s["pv"]), "st": list(s["st"])}})
+    lost = False
+    for p in got["polls"]:
+        s = p["snap"]
+        if s is None:
+            lost = True
+            tr.append({"e": "PollLost", "at": tick_of(p["at"]), "end": max(tick_of(p["end"]), tick_of(p["at"]) + 1)})
+        else:
+            tr.append({"e": "Poll", "at": tick_of(p["at"]),
+                       "snap": {"local": s["local"], "pv": list(s["pv"]), "st": list(s["st"])}})
     done = got["outcome"] is True or got["outcome"] is False
     if got["aborted_at"] is not None and (done or got["outcome"] == "raised"):
         v = "n/a" if (mode == "direct" and not done) else ("yes" if got["outcome"] is True else "no" if done else "n/a")
@@ -857,8 +893,8 @@ def agree_trace(harnesses, mode, wait_ticks, timeline, fault_at_poll=None):
         tr.append({"e": "Finish", "v": "yes" if got["outcome"] else "no", "at": tick_of(got["end"])})
     else:
         tr.append({"e": "Broken", "what": str(got["outcome"]), "error": got["error"]})
-    if got["aborted_at"] is not None:
-        h.shutdown()
+    if got["aborted_at"] is not None or lost:
+        h.shutdown()                                   # the connection it ran on is gone / has requests nobody answers
         harnesses[key] = AgreeHarness(h.kpeers, h.upeers, h.meta_enabled)
     return tr, got
 
@@ -887,6 +923,8 @@ def agree_signature(trace, rejected_at):
     if ev["e"] == "Finish":
         what = "verdict" if mode == "direct" else "is_schema_agreed"
         if ev["v"] == "yes":
+            if not polls and any(e["e"] == "PollLost" for e in trace[:rejected_at]):
+                return "agree:%s:agreement-reported-although-every-poll-timed-out" % mode
             if not polls:
                 return "agree:%s:agreement-reported-without-polling" % mode
             return "agree:%s:%s-True-instead-of-False" % (mode, what)
